@@ -112,13 +112,14 @@ class Gen:
             ps.append(p)
         inner = sc + [dict((p, "int") for p in (ps[:-1] if variadic else ps))]
         if variadic: inner[-1][ps[-1]] = "arr:0"
-        body = self.block(inner, 1, False, True, n=r.randrange(0, 3), fnbody=True)
-        body.append(["ret", self.int_expr(inner + [{}], 1)])
+        bscope = {"\0fnbody": "marker"}
+        body = self.block(inner, 1, False, True, n=r.randrange(0, 3), own=bscope)
+        body.append(["ret", self.int_expr(inner + [bscope], 1)])      # sees what the body declared (and shadowed)
         self.count("func")
         return ["func", ps, "1" if variadic else "0", body], "fn:%d:%d" % (np, 1 if variadic else 0)
 
-    def block(self, sc, depth, in_loop, in_func, n=None, fnbody=False):
-        sc = sc + [{"\0fnbody": "marker"} if fnbody else {}]
+    def block(self, sc, depth, in_loop, in_func, n=None, own=None):
+        sc = sc + [own if own is not None else {}]
         out = []
         for _ in range(n if n is not None else self.r.randrange(1, 4)):
             out += self.stmt(sc, depth, in_loop, in_func)
@@ -261,6 +262,25 @@ class Gen:
                 out.append(["expr", ["call", ["v", "log"], [["call", ["v", f], [self.int_expr(sc) for _ in range(explicit)], ["v", arr]]], "-"]])
             cur[arr] = "arr:%d" % n
             return out
+        if k in (22, 23):
+            # self calls in tail position (returned or discarded) with fewer argument expressions than parameters: the
+            # variadic argument left out, or a spread array supplying several parameters
+            self.count("tail-call-binding")
+            f, a, b = self.fresh("tf"), self.fresh("p"), self.fresh("p")
+            form = r.randrange(3)
+            if k == 22:
+                base = ["ret", ["bin", "add", ["len", ["v", b]], ["bin", "mul", ["v", a], ["i", "100"]]]]
+                selfcall = ["call", ["v", f], [["bin", "sub", ["v", a], ["i", "1"]]] + ([["i", "5"]] if form == 2 else []), "-"]
+                fn = ["func", [a, b], "1"]
+                first = ["call", ["v", f], [["i", str(r.randrange(0, 4))], self.int_expr(sc), self.int_expr(sc)], "-"]
+            else:
+                base = ["ret", ["v", b]]
+                selfcall = ["call", ["v", f], [], ["arr", ["bin", "sub", ["v", a], ["i", "1"]], ["bin", "add", ["v", b], ["i", "10"]]]]
+                fn = ["func", [a, b], "0"]
+                first = ["call", ["v", f], [["i", str(r.randrange(0, 4))], self.int_expr(sc)], "-"]
+            tail = ["ret", selfcall] if form != 1 else ["expr", selfcall]
+            body = [["if", ["bin", "le", ["v", a], ["i", "0"]], [base], []], ["expr", ["call", ["v", "log"], [["v", a]], "-"]], tail]
+            return [["var", f, "-"], ["set", f, fn + [body]], ["expr", ["call", ["v", "log"], [first], "-"]]]
         if k in (24, 25):
             # a name declared again in the same block by a destructuring define (one of the names is new): a fresh
             # variable; closures made before keep the old one
